@@ -115,3 +115,17 @@ package tools
 //@   requires @inv to != nil && from != nil
 //@   requires @C09 !isobjdir(dir)
 //@   ensures result1 == nil && !dyntype(to, "*os.File") && !is_tee(to) ==> wbuf(to) == scat(old(wbuf(to)), old(rrest(from))) && result0 == len(old(rrest(from)))
+
+// C01 / C02: the progress wrapper is a faithful reader.  What it delivers is
+// exactly what the wrapped reader delivered, and it reports the end of the
+// stream only when the wrapped stream is exhausted - whatever total size it was
+// told to expect.  (This is what the copy lemma of CopyWithCallback rests on
+// when a progress callback is installed.)
+//@ func (*CallbackReader).Read
+//@   props C01 C02
+//@   requires @inv w != nil && w.Reader != nil
+//@   modifies bytes p, ghost rrest[w.Reader], field w.ReadSize
+//@   ensures result0 >= 0 && result0 <= len(p)
+//@   ensures bytesOf(p[0:result0]) == bsub(old(rrest(w.Reader)), 0, result0)
+//@   ensures rrest(w.Reader) == bsub(old(rrest(w.Reader)), result0, len(old(rrest(w.Reader))))
+//@   ensures result1 == io.EOF ==> rrest(w.Reader) == ""
